@@ -61,7 +61,7 @@ Section NextCell.
   Lemma nc_start :
     c_start c = Z.max (c_arrival c) (to_earliest_start (stop_windows inp s) (c_arrival c)).
   Proof. reflexivity. Qed.
-  Lemma nc_end : c_end c = c_start c + stop_duration_at inp (c_stop p) s. Proof. reflexivity. Qed.
+  Lemma nc_end : c_end c = c_start c + stop_duration_on inp v (c_stop p) s. Proof. reflexivity. Qed.
   Lemma nc_cumtravel : c_cumtravel c = c_cumtravel p + c_travel c. Proof. reflexivity. Qed.
   Lemma nc_cumdist : c_cumdist c = c_cumdist p + distance_value inp v (c_stop p) s.
   Proof. reflexivity. Qed.
@@ -82,7 +82,7 @@ Section NextCell.
     c_travel c = travel_duration inp (c_stop p) s /\
     c_arrival c = c_end p + c_travel c /\
     c_start c = Z.max (c_arrival c) (to_earliest_start (stop_windows inp s) (c_arrival c)) /\
-    c_end c = c_start c + stop_duration_at inp (c_stop p) s /\
+    c_end c = c_start c + stop_duration_on inp v (c_stop p) s /\
     c_cumtravel c = c_cumtravel p + c_travel c /\
     c_cumdist c = c_cumdist p + distance_value inp v (c_stop p) s /\
     c_pos c = S (c_pos p) /\
@@ -196,7 +196,7 @@ Theorem C04_forward_walk_proof : forall inp s v,
     c_arrival c = c_end p + c_travel c /\
     c_start c = Z.max (c_arrival c)
                       (to_earliest_start (stop_windows inp (c_stop c)) (c_arrival c)) /\
-    c_end c = c_start c + stop_duration_at inp (c_stop p) (c_stop c) /\
+    c_end c = c_start c + stop_duration_on inp v (c_stop p) (c_stop c) /\
     c_cumtravel c = c_cumtravel p + c_travel c /\
     c_cumdist c = c_cumdist p + distance_value inp v (c_stop p) (c_stop c) /\
     c_pos c = S (c_pos p) /\
@@ -1536,12 +1536,12 @@ Qed.
    (after the epoch) and a max wait; units {0,1} and {2}; every constraint and
    the activation, travel, vehicles-duration and unplanned terms installed *)
 Definition ex2_opts : options :=
-  mkOptions false false false false false false false false false false false 1 1 1 1 false 0 0 0 0.
+  mkOptions false false false false false false false false false false false 1 1 1 1 false 0 0 0 0 false.
 Definition ex2_mat : list (list Z) :=
   map (fun i => map (fun j => if Nat.eqb i j then 0 else 60) (seqn 7)) (seqn 7).
 Definition ex2_vehicle : ivehicle :=
   mkIVehicle (Some [2; 3]) [0; 0] 3000 (Some 20000) (Some 15000) None (Some 1000) (Some 5000)
-             [] 10 true true 0 0.
+             [] 10 true true 0 0 1 1.
 Definition ex2_inp : input :=
   mkInput [] [mkIStop [-1; 0] 10 [(3600, 7200); (10800, 14400)] (Some 4000) 100 [] None 0 0;
            mkIStop [0; -2] 10 [] None 100 [] None 0 0;
@@ -1559,7 +1559,7 @@ Definition ex2_h : list op := [OpPlan ex2_mv1; OpPlan ex2_mv2; OpUnplan 0].
 
 Example ex2_wf : wf_input ex2_inp.
 Proof.
-  split; [|split; [|split; [|exact (Forall_nil _)]]].
+  split; [|split; [|split; [|split; [exact (Forall_nil _)|mult_wf]]]].
   - vm_compute. repeat (constructor; [simpl; lia|]). constructor.
   - intros x. vm_compute. lia.
   - intros u Hu. vm_compute in Hu. destruct Hu as [<-|[<-|[]]]; discriminate.
@@ -1713,7 +1713,7 @@ Definition dgx_stops : list istop :=
   [mkIStop [] 10 [] None 100 [] None 0 0; mkIStop [] 20 [] None 100 [] None 0 0;
    mkIStop [] 5 [] None 100 [] None 0 0; mkIStop [] 30 [] None 100 [] None 0 0].
 Definition dgx_inp : input :=
-  mkInput [] dgx_stops [mkIVehicle None [] 0 None None None None None [] 0 true true 0 0]
+  mkInput [] dgx_stops [mkIVehicle None [] 0 None None None None None [] 0 true true 0 0 1 1]
           [mkIUnit [0; 1; 2; 3]%nat []] dgx_mat dgx_mat 0 ex_opts [([0; 1; 3]%nat, 300)].
 Definition dgx_s0 : state :=
   Eval vm_compute in match new_solution dgx_inp with Some s => s | None => ex_dummy end.
@@ -1721,9 +1721,9 @@ Definition dgx_mv : move := mkMove 0 0 [(0, 1); (1, 1); (2, 1); (3, 1)]%nat.
 Definition dgx_s1 : state := Eval vm_compute in fst (exec_move dgx_inp dgx_s0 dgx_mv).
 (* the same input with the duration groups disabled *)
 Definition dgx_off_inp : input :=
-  mkInput [] dgx_stops [mkIVehicle None [] 0 None None None None None [] 0 true true 0 0]
+  mkInput [] dgx_stops [mkIVehicle None [] 0 None None None None None [] 0 true true 0 0 1 1]
           [mkIUnit [0; 1; 2; 3]%nat []] dgx_mat dgx_mat 0
-          (mkOptions false false false false false false false false false false false 0 1 0 1 true 0 0 0 0)
+          (mkOptions false false false false false false false false false false false 0 1 0 1 true 0 0 0 0 false)
           [([0; 1; 3]%nat, 300)].
 
 Example dgx_wf : wf_input dgx_inp.
@@ -1732,7 +1732,7 @@ Proof.
   - vm_compute. repeat (constructor; [simpl; lia|]). constructor.
   - intros x. vm_compute. lia.
   - intros u Hu. vm_compute in Hu. destruct Hu as [<-|[]]; discriminate.
-  - vm_compute. repeat constructor.
+  - split; [vm_compute; repeat constructor|mult_wf].
 Qed.
 
 Example dgx_new : new_solution dgx_inp = Some dgx_s0.
@@ -1761,10 +1761,10 @@ Example C04_duration_groups_example_proof :
   route_stops (get_route dgx_s1 0) = [4; 0; 1; 2; 3; 5]%nat /\
   (* time spent at each stop of the route *)
   map (fun c => c_end c - c_start c) (get_route dgx_s1 0) = [0; 10 + 300; 20; 5; 30 + 300; 0] /\
-  stop_duration_at dgx_inp 4 0 = stop_duration dgx_inp 0 + 300 /\
-  stop_duration_at dgx_inp 0 1 = stop_duration dgx_inp 1 /\
-  stop_duration_at dgx_inp 1 2 = stop_duration dgx_inp 2 /\
-  stop_duration_at dgx_inp 2 3 = stop_duration dgx_inp 3 + 300 /\
+  stop_duration_on dgx_inp 0 4 0 = stop_duration dgx_inp 0 + 300 /\
+  stop_duration_on dgx_inp 0 0 1 = stop_duration dgx_inp 1 /\
+  stop_duration_on dgx_inp 0 1 2 = stop_duration dgx_inp 2 /\
+  stop_duration_on dgx_inp 0 2 3 = stop_duration dgx_inp 3 + 300 /\
   map c_arrival (get_route dgx_s1 0) = [0; 60; 430; 510; 575; 965] /\
   map c_end (get_route dgx_s1 0) = [0; 370; 450; 515; 905; 965] /\
   (* duration groups disabled: own durations only *)
@@ -1772,6 +1772,104 @@ Example C04_duration_groups_example_proof :
   = [0; 10; 20; 5; 30; 0].
 Proof.
   split; [exact dgx_wf|]. split; [exact dgx_reachable|].
+  repeat split; vm_compute; reflexivity.
+Qed.
+
+(* ---- stop duration multipliers ------------------------------------ *)
+
+(* Stops 0 and 1: stop 0 has own duration 7 and is the only member of a
+   duration group of 5 s; stop 1 has own duration 4 and is in no group.  One
+   vehicle (first stop 2, last stop 3) with stop duration multiplier 3/2, start
+   time 0, 60 s between any two different stops.  One move plans stop 0, which
+   is reached from the vehicle's first stop (outside the group):
+     own part    floor (7 * 3 / 2) = 10
+     group part  floor (5 * 3 / 2) = 7       separately truncated: 17,
+   not floor ((7 + 5) * 3 / 2) = 18.  With the multipliers disabled: 7 + 5 = 12. *)
+Definition mx_mat : list (list Z) :=
+  map (fun i => map (fun j => if Nat.eqb i j then 0 else 60) (seqn 4)) (seqn 4).
+Definition mx_stops : list istop :=
+  [mkIStop [] 7 [] None 100 [] None 0 0; mkIStop [] 4 [] None 100 [] None 0 0].
+Definition mx_veh : ivehicle :=
+  mkIVehicle None [] 0 None None None None None [] 0 true true 0 0 3 2.
+Definition mx_inp : input :=
+  mkInput [] mx_stops [mx_veh] [mkIUnit [0%nat] []; mkIUnit [1%nat] []] mx_mat mx_mat 0 ex_opts
+          [([0%nat], 5)].
+Definition mx_s0 : state :=
+  Eval vm_compute in match new_solution mx_inp with Some s => s | None => ex_dummy end.
+Definition mx_mv : move := mkMove 0 0 [(0, 1)]%nat.
+Definition mx_s1 : state := Eval vm_compute in fst (exec_move mx_inp mx_s0 mx_mv).
+(* the same input with the stop duration multipliers disabled *)
+Definition mx_off_inp : input :=
+  mkInput [] mx_stops [mx_veh] [mkIUnit [0%nat] []; mkIUnit [1%nat] []] mx_mat mx_mat 0
+          (mkOptions false false false false false false false false false false false 0 1 0 1 false 0 0 0 0 true)
+          [([0%nat], 5)].
+Definition mx_off_s0 : state :=
+  Eval vm_compute in match new_solution mx_off_inp with Some s => s | None => ex_dummy end.
+Definition mx_off_s1 : state := Eval vm_compute in fst (exec_move mx_off_inp mx_off_s0 mx_mv).
+
+Example mx_wf : wf_input mx_inp.
+Proof.
+  split; [|split; [|split]].
+  - vm_compute. repeat (constructor; [simpl; lia|]). constructor.
+  - intros x. vm_compute. lia.
+  - intros u Hu. vm_compute in Hu. destruct Hu as [<-|[<-|[]]]; discriminate.
+  - split; [vm_compute; repeat constructor|mult_wf].
+Qed.
+
+Example mx_off_wf : wf_input mx_off_inp.
+Proof.
+  split; [|split; [|split]].
+  - vm_compute. repeat (constructor; [simpl; lia|]). constructor.
+  - intros x. vm_compute. lia.
+  - intros u Hu. vm_compute in Hu. destruct Hu as [<-|[<-|[]]]; discriminate.
+  - split; [vm_compute; repeat constructor|mult_wf].
+Qed.
+
+Example mx_reachable : reachable mx_inp mx_s1.
+Proof.
+  exists mx_s0, [OpPlan mx_mv]. split; [vm_compute; reflexivity|]. split.
+  - cbn [fresh op_ok]. split; [|exact I]. unfold move_ok. vm_compute.
+    split; [lia|]. split; [lia|]. split; [apply Permutation_refl|]. split; [discriminate|].
+    split; repeat constructor.
+  - cbn [run step].
+    replace (exec_move mx_inp mx_s0 mx_mv) with (mx_s1, Done) by (vm_compute; reflexivity).
+    cbn [fst]. right. left. reflexivity.
+Qed.
+
+Example mx_off_reachable : reachable mx_off_inp mx_off_s1.
+Proof.
+  exists mx_off_s0, [OpPlan mx_mv]. split; [vm_compute; reflexivity|]. split.
+  - cbn [fresh op_ok]. split; [|exact I]. unfold move_ok. vm_compute.
+    split; [lia|]. split; [lia|]. split; [apply Permutation_refl|]. split; [discriminate|].
+    split; repeat constructor.
+  - cbn [run step].
+    replace (exec_move mx_off_inp mx_off_s0 mx_mv) with (mx_off_s1, Done) by (vm_compute; reflexivity).
+    cbn [fst]. right. left. reflexivity.
+Qed.
+
+Example C04_multiplier_example_proof :
+  wf_input mx_inp /\ reachable mx_inp mx_s1 /\
+  (iv_mult_num (get_vehicle mx_inp 0), iv_mult_den (get_vehicle mx_inp 0)) = (3, 2) /\
+  stop_duration mx_inp 0 = 7 /\ in_dgroups mx_inp = [([0%nat], 5)] /\
+  route_stops (get_route mx_s1 0) = [2; 0; 3]%nat /\
+  (* time spent at each stop of the route: 7 and 5 are scaled separately *)
+  map (fun c => c_end c - c_start c) (get_route mx_s1 0) = [0; 17; 0] /\
+  stop_duration_on mx_inp 0 2 0 = 10 + 7 /\
+  scale_duration mx_inp 0 7 = 10 /\ scale_duration mx_inp 0 5 = 7 /\
+  scale_duration mx_inp 0 (7 + 5) = 18 /\
+  stop_duration_at mx_inp 2 0 = 12 /\
+  map c_arrival (get_route mx_s1 0) = [0; 60; 137] /\
+  map c_end (get_route mx_s1 0) = [0; 77; 137] /\
+  (* stop duration multipliers disabled: the unscaled time *)
+  wf_input mx_off_inp /\ reachable mx_off_inp mx_off_s1 /\
+  o_dis_multipliers (in_opts mx_off_inp) = true /\
+  route_stops (get_route mx_off_s1 0) = [2; 0; 3]%nat /\
+  map (fun c => c_end c - c_start c) (get_route mx_off_s1 0) = [0; 12; 0] /\
+  stop_duration_on mx_off_inp 0 2 0 = 12.
+Proof.
+  split; [exact mx_wf|]. split; [exact mx_reachable|].
+  do 12 (split; [vm_compute; reflexivity|]).
+  split; [exact mx_off_wf|]. split; [exact mx_off_reachable|].
   repeat split; vm_compute; reflexivity.
 Qed.
 
@@ -1791,11 +1889,11 @@ Qed.
      vehicle 0 has 2 stops of 3: 10 * 1 * 1; the empty vehicle 1 is free
      the largest vehicle has 2 stops *)
 Definition mt_opts : options :=
-  mkOptions false false false false false false false false false false false 1 1 1 1 false 2 3 5 7.
+  mkOptions false false false false false false false false false false false 1 1 1 1 false 2 3 5 7 false.
 Definition mt_mat : list (list Z) :=
   map (fun i => map (fun j => if Nat.eqb i j then 0 else 60) (seqn 6)) (seqn 6).
 Definition mt_vehicle : ivehicle :=
-  mkIVehicle None [] 0 None None None None None [] 1000 true true 3 10.
+  mkIVehicle None [] 0 None None None None None [] 1000 true true 3 10 1 1.
 Definition mt_inp : input :=
   mkInput [] [mkIStop [] 10 [] None 100 [] (Some 500) 2 3; mkIStop [] 10 [] None 100 [] (Some 100) 2 3]
           [mt_vehicle; mt_vehicle]
@@ -1813,7 +1911,7 @@ Proof.
   - vm_compute. repeat (constructor; [simpl; lia|]). constructor.
   - intros x. vm_compute. lia.
   - intros u Hu. vm_compute in Hu. destruct Hu as [<-|[<-|[]]]; discriminate.
-  - vm_compute. constructor.
+  - split; [vm_compute; repeat constructor|mult_wf].
 Qed.
 
 Example mt_new : new_solution mt_inp = Some mt_s0.
